@@ -13,6 +13,11 @@ use std::time::{Duration, Instant};
 
 pub const THREADS: usize = 16;
 
+/// worker threads actually used (VERIF_THREADS overrides, for scaling measurements)
+pub fn threads() -> usize {
+    std::env::var("VERIF_THREADS").ok().and_then(|s| s.parse().ok()).unwrap_or(THREADS).clamp(1, THREADS)
+}
+
 #[derive(Clone, Copy, PartialEq, Eq, Debug)]
 pub enum Tier {
     Quick,
@@ -204,6 +209,22 @@ pub fn guard<T>(f: impl FnOnce() -> T) -> Result<T, String> {
     match r {
         Ok(v) => Ok(v),
         Err(_) => Err(LAST_PANIC.with(|p| p.borrow_mut().take()).unwrap_or_else(|| "panic (no message)".into())),
+    }
+}
+
+/// glibc keeps freed chunks in a per-thread cache regardless of the arena they came from, and
+/// `realloc` allocates the grown block from the arena of the OLD block.  A worker thread that frees a
+/// few blocks allocated by the spawning thread (std::thread does) therefore keeps cycling blocks of the
+/// main arena through its cache, and all workers end up serialised on the main arena's lock (measured:
+/// 16 threads no faster than 1).  Emptying the cache once at thread start, by allocating and leaking
+/// 8 blocks of every cached size class, removes the inherited blocks; refills then come from the
+/// worker's own arena.
+pub fn flush_inherited_tcache() {
+    for sz in (8..=1032usize).step_by(16) {
+        for _ in 0..8 {
+            let v: Vec<u8> = Vec::with_capacity(sz);
+            std::mem::forget(std::hint::black_box(v));
+        }
     }
 }
 
@@ -400,7 +421,7 @@ impl Run {
         let tally = Mutex::new(Tally::default());
         let finished = AtomicBool::new(false);
         let capped = AtomicBool::new(false);
-        let nworkers = THREADS.min(n.max(1));
+        let nworkers = threads().min(n.max(1));
         let alive = AtomicUsize::new(nworkers);
         // per-worker heartbeat: (item+1, start millis since t0); 0 = idle
         let beats: Vec<(AtomicUsize, AtomicU64)> = (0..THREADS).map(|_| (AtomicUsize::new(0), AtomicU64::new(0))).collect();
@@ -411,6 +432,7 @@ impl Run {
                 std::thread::Builder::new()
                     .stack_size(64 << 20)
                     .spawn_scoped(sc, move || {
+                      flush_inherited_tcache();
                       loop {
                         if self.stop.load(Relaxed) {
                             break;
